@@ -24,8 +24,11 @@ Init == st = Ok /\ nfaults = 0
 EditManifest(h, i)   == st[h].mans[i] = "ok" /\ st' = [st EXCEPT ![h].mans[i] = "edited"]
 RemoveManifest(h, i) == st[h].mans[i] # "missing" /\ st' = [st EXCEPT ![h].mans[i] = "missing"]
 RemoveChain(h)       == st[h].chain = "ok" /\ st' = [st EXCEPT ![h].chain = "missing"]
+\* the whole content of an ascmhl folder removed at once (chain file and every manifest): the folder is still there,
+\* so this is "the chain file of an existing ascmhl folder is missing" (32), not "no history"
+EmptyFolder(h)       == st[h] = Ok[h] /\ st' = [st EXCEPT ![h] = [chain |-> "missing", mans |-> [i \in 1..NGens[h] |-> "missing"]]]
 Next == /\ nfaults < MaxFaults /\ nfaults' = nfaults + 1
-        /\ \E h \in HSet : RemoveChain(h) \/ \E i \in 1..NGens[h] : EditManifest(h, i) \/ RemoveManifest(h, i)
+        /\ \E h \in HSet : RemoveChain(h) \/ EmptyFolder(h) \/ \E i \in 1..NGens[h] : EditManifest(h, i) \/ RemoveManifest(h, i)
 Spec == Init /\ [][Next]_<<st, nfaults>>
 
 IsPrefixP(a, b) == Len(a) <= Len(b) /\ SubSeq(b, 1, Len(a)) = a
